@@ -273,6 +273,28 @@ def k12(ctx, res):
                      "the round trip with required=False")
 
 
+@rule("K13", "literal keyword values are never de-duplicated or sorted with Python equality")
+def k13(ctx, res):
+    """enum / const / default hold JSON values: Python's == merges true with 1 and false with 0, so an equality-based
+    de-duplication outside the bool-aware normalisation changes the set of accepted values."""
+    n_funcs = 0
+    DEDUPERS = ("remove_duplicates", "set", "frozenset", "dict.fromkeys", "OrderedDict.fromkeys", "sorted")
+    for f in ctx.prog.all_funcs():
+        if not (f.module.name.startswith("statham.serializers") or f.module.name == "statham.schema.parser"):
+            continue
+        n_funcs += 1
+        for x in walk_own(f.body):
+            if isinstance(x, ast.Call) and dotted(x.func) in DEDUPERS and x.args:
+                a_ = x.args[0]
+                lit = [y for y in ast.walk(a_) if (isinstance(y, ast.Subscript) and isinstance(y.slice, ast.Constant)
+                                                  and y.slice.value in ("enum", "const", "default"))
+                       or (isinstance(y, ast.Attribute) and y.attr in ("enum", "const", "default"))]
+                if lit:
+                    res.violation(f, x, reason="a literal keyword value is passed through an equality-based de-duplication / ordering: "
+                                               "Element(enum=[1, True]) would be emitted as {'enum': [1]}")
+    res.floor("functions_scanned", n_funcs, 30)
+
+
 # ---------------------------------------------------------------------- K3
 LITERAL_NAMES = ("default", "const")
 
